@@ -40,3 +40,27 @@ func init() {
 		ruleWildcards(c, r)
 	})
 }
+
+func init() {
+	register("C04", func(c *Ctx, r *Report) {
+		r.Decides("every value written into the destination by the copy family is fresh, the destination's own, or a source value proved non-reference by a dominating guard; deepCopy copies into a fresh root; MergeStructs merges into the deep copy; no append onto a slice the function does not own.",
+			"equality of the copy with the original; sharing through leaf-list elements that are wrapper-union pointers (element kind is not decided statically).")
+		ruleCopyAlias(c, r)
+		ruleAppendAlias(c, r, anchorScope("C04"), 3)
+	})
+	register("C05", func(c *Ctx, r *Report) {
+		r.Decides("MergeStructs deep-copies a and merges b into the copy (inputs never destinations); merge options are forwarded to every recursive copy call; every sink in the copy family writes fresh or guarded values.",
+			"the exact success boundary (which pairs conflict), union-of-leaves and commutativity at value level.")
+		ruleCopyAlias(c, r)
+		ruleOptsForward(c, r, anchorScope("C05"), 10)
+	})
+}
+
+func init() {
+	register("C03", func(c *Ctx, r *Report) {
+		r.Decides("the guards of ygot.diff (delete ⇔ absent from modified; update of a common path ⇔ !reflect.DeepEqual; additions ⇔ absent from original ∧ no IgnoreAdditions), PathToString-keyed leaf maps, cloned parent paths, and no append onto slices the diff code does not own (paths of one leaf never share a backing array with another).",
+			"apply-back equality Diff(a,b) applied to a gives b; atomic ordering; C08's injectivity of PathToString is imported, not re-decided here.")
+		ruleDiffGuards(c, r)
+		ruleAppendAlias(c, r, anchorScope("C03"), 40)
+	})
+}
